@@ -137,6 +137,14 @@ type State struct {
 	ret    Val
 	depth  int
 	dead   bool
+	calls  map[string][]CallRec // ghost history: last calls of repository functions (for wiring postconditions)
+}
+
+type CallRec struct {
+	Args []Val
+	Ret  Val
+	Sig  *types.Signature
+	Params []*types.Var
 }
 
 func NewState() *State {
@@ -154,6 +162,12 @@ func (s *State) Clone() *State {
 	}
 	for k, v := range s.optObj {
 		n.optObj[k] = v
+	}
+	if s.calls != nil {
+		n.calls = make(map[string][]CallRec, len(s.calls))
+		for k, v := range s.calls {
+			n.calls[k] = append([]CallRec(nil), v...)
+		}
 	}
 	return n
 }
@@ -235,4 +249,10 @@ func describeVal(v Val) string {
 		return "mapiter"
 	}
 	return fmt.Sprintf("%T", v)
+}
+
+// CallHist: ghost view of the calls of one function on the current path.
+type CallHist struct {
+	Name string
+	Recs []CallRec
 }
